@@ -1,6 +1,7 @@
 package checks
 
 import (
+	"errors"
 	"fmt"
 
 	"github.com/lidofinance/dc4bc/client/types"
@@ -18,6 +19,9 @@ type DKGRun struct {
 	// Deviate may return a mutation of the RESULT the operator of `node` submits for `op`
 	// (nil = honest). It is called for every (state, node, op).
 	Deviate func(node int, op *types.Operation) func(res *types.Operation)
+	// OnMachinePanic is called when an airgapped machine panics while answering (instead of the
+	// exploration failing); the branch is not continued.
+	OnMachinePanic func(s *worldx.State, node int, op *types.Operation, p *world.MachinePanic)
 	// Linear explores only the canonical order (node 0 first) instead of all orders.
 	Linear bool
 
@@ -73,6 +77,11 @@ func (d *DKGRun) Explore(r *kit.Run, check func(s *worldx.State), terminal func(
 					}
 					c, apiErr, err := k.OperateOp(s, i, op.ID, mutate)
 					if err != nil {
+						var mp *world.MachinePanic
+						if errors.As(err, &mp) && d.OnMachinePanic != nil {
+							d.OnMachinePanic(s, i, op, mp)
+							continue
+						}
 						return nil, err
 					}
 					if apiErr != nil && mutate == nil {
